@@ -486,8 +486,9 @@ class VM:
             i = n - i
         return Ptr(ptr.cell, ptr.path + (('i', i),))
 
-    def variant_index(self, name, _ty, st, ptr):
-        # find the enum by variant name; prefer the enum whose value is at ptr
+    def variant_index(self, name, ty, st, ptr):
+        # find the enum by variant name; same-named enums (e.g. graphql_parser's and the crate's `Selection`) are told
+        # apart by the value's tag, else by the declared type of the local the place starts from
         cands = [(en, vs.index(name)) for en, vs in self.enums.items() if name in vs]
         idxs = set(i for _, i in cands)
         if len(idxs) == 1:
@@ -495,10 +496,12 @@ class VM:
         v = self.load(st, ptr)
         if isinstance(v, Agg) and v.tag in self.enums and name in self.enums[v.tag]:
             return self.enums[v.tag].index(name)
+        external = 'graphql_parser' in (ty or '')
+        pref = [(en, i) for en, i in cands if ('::' in en) == external]
         if isinstance(v, SymEnum):
-            for en, i in cands:
-                if set(v.cases) <= set(range(len(self.enums[en]))) and i in v.cases:
-                    return i
+            pref = [(en, i) for en, i in pref if i in v.cases and max(v.cases) < len(self.enums[en])] or pref
+        if len(set(i for _, i in pref)) == 1:
+            return pref[0][1]
         raise Unsupported(f'ambiguous variant {name}: {cands}')
 
     # ------------------------------------------------------------ operands
